@@ -802,8 +802,15 @@ pub fn check_main(args: &[String]) -> i32 {
         // spread over the whole range of this check's cases
         let n = n.min(total);
         let sw = crate::fidelity::sweep(&prop, seed, n, (total / n.max(1)).max(1), nw as usize, &scratch_dir);
+        // in C19 a disagreement is explained when the simulation itself has found that the output
+        // depends on the environment (the real binary runs in yet another environment)
+        let explained = prop == "C19" && viols.iter().any(|v| v.class.contains("env_dependent") || v.class.contains("history_dependent"));
         for m in sw.mismatches.iter().take(5) {
-            harness_errors.push(format!("simulated console and real binary disagree: {}", m));
+            if explained {
+                println!("note: simulated console and real binary disagree ({}): explained by the environment dependence reported below", m);
+            } else {
+                harness_errors.push(format!("simulated console and real binary disagree: {}", m));
+            }
         }
         for (run, what) in sw.not_reproducible.iter().take(3) {
             if prop == "C19" {
